@@ -86,15 +86,23 @@ impl BlpHeader {
         if i == 0 {
             (self.width, self.height)
         } else {
-            ((self.width >> i).max(1), (self.height >> i).max(1))
+            // Levels past the width of the integer are 1x1 like every level below the last
+            let shift = |v: u32| u32::try_from(i).ok().and_then(|i| v.checked_shr(i));
+            (
+                shift(self.width).unwrap_or(0).max(1),
+                shift(self.height).unwrap_or(0).max(1),
+            )
         }
     }
 
     /// Return expected count of pixels in mipmap at the level i.
     /// 0 level means original image.
+    ///
+    /// Width and height come straight from the file and their product does not have
+    /// to fit: the count saturates at `u32::MAX`, which no real image can provide.
     pub fn mipmap_pixels(&self, i: usize) -> u32 {
         let (w, h) = self.mipmap_size(i);
-        w * h
+        w.saturating_mul(h)
     }
 
     /// Return alpha bits count in encoding
